@@ -240,6 +240,39 @@ pub fn check(ctx: &mut Ctx) {
     let l2 = ctx.tier.pick(7usize, 8usize);
     run_exhaustive(ctx, "closers-with-attributes", ATOMS2, l2);
     ctx.random("long-sequences", 160, 600_000, 30_000_000, gen_long, |c, obs| oracle(c, obs, false));
+    // many simultaneously open tags (never closed, stray closers, properly nested) in front of / around a well-formed pair:
+    // the pair must still be recognised (up to the depth that known finding KF4 of C01 leaves: 2 400 here)
+    let mut deep: Vec<SeqCase> = vec![];
+    for k in [10usize, 33, 100, 513, 1025, 2400] {
+        let mk = |pieces: Vec<String>| SeqCase { pieces, ds: "<".into(), de: ">".into() };
+        let pair = || vec!["b".to_string(), "\u{1}keep".to_string(), "/b".to_string()];
+        // k never-closed openers, then a pair
+        deep.push(mk(std::iter::repeat("a".to_string()).take(k).chain(pair()).collect()));
+        // k stray closers, then a pair
+        deep.push(mk(std::iter::repeat("/z".to_string()).take(k).chain(pair()).collect()));
+        // a pair nested k deep in properly closed elements of alternating names
+        let mut v: Vec<String> = (0..k).map(|i| if i % 2 == 0 { "a".to_string() } else { "c x='1'".to_string() }).collect();
+        v.extend(pair());
+        v.extend((0..k).rev().map(|i| if i % 2 == 0 { "/a".to_string() } else { "/c".to_string() }));
+        deep.push(mk(v));
+        // same-name nesting k deep: every closer closes the innermost
+        let mut w: Vec<String> = std::iter::repeat("a".to_string()).take(k).collect();
+        w.extend(pair());
+        w.extend(std::iter::repeat("/a".to_string()).take(k / 2));
+        deep.push(mk(w));
+    }
+    let n = deep.len();
+    ctx.exhaustive("deep-sequences", &format!("{n} sequences with 10..2400 simultaneously open tags (never closed / stray closers / nested / same-name) around a well-formed pair"), deep.into_iter().map(|c| vec![c]).collect(), |cs, obs| {
+        for c in cs {
+            obs.eval();
+            if let Verdict::Fail(m) = oracle(c, obs, true) {
+                let small = SeqCase { pieces: vec![format!("({} pieces, first: {:?}, last: {:?})", c.pieces.len(), c.pieces.first(), c.pieces.last())], ds: c.ds.clone(), de: c.de.clone() };
+                return Some(fail_case("deep-sequences", &small, truncate(&m, 600)));
+            }
+            obs.max("open-tags", c.pieces.len() as u64);
+        }
+        None
+    });
 }
 
 pub fn replay(_sub: &str, case: &Value, obs: &mut Obs) -> Result<Verdict, String> {
